@@ -327,6 +327,14 @@ def rule_permexh(ctx):
 
             est_ix = {z.a[1] for d in D for z in tm.walk(d.a[1][1]) if z.op == "sub" and z.a[0].op in ("param", "ite", "call") and "estimated_sources" in tm.params_of(z.a[0]) and loop_index(z.a[1])}
             true_ix = {d.a[1][2] for d in D}
+            if not est_ix:
+                # `for j, est in enumerate(estimated_sources)`: the element of iteration j *is* estimated_sources[j]
+                for d in D:
+                    for z in tm.walk(d.a[1][1]):
+                        if z.op == "iter" and "estimated_sources" in tm.params_of(z.a[0]) and len(z.a) > 1:
+                            for c_ in comps:
+                                if c_.op == "idx" and c_.a[0] == z.a[1]:
+                                    est_ix.add(c_)
             if len(comps) == 1:
                 K = comps[0]
                 if est_ix == {K} and true_ix == {K}:
